@@ -12,47 +12,9 @@
 From Coq Require Import NArith List String Bool.
 From SigM Require Import LockTrace.
 From SigG Require Import GenLocks.
-From SigP Require Import LockTraceProofs.
+From SigP Require Import LockTraceProofs GenLocksCheck.
 Import ListNotations.
 Open Scope string_scope.
-
-Definition lk_fuel : nat := 12.
-
-Fixpoint obj_name (o : N) (l : list (N * string)) : string :=
-  match l with [] => "?" | (i, n) :: r => if N.eqb i o then n else obj_name o r end.
-
-Definition viol_sig (v : viol) : string :=
-  match v with
-  | VReacquire o => "reacquire " ++ obj_name o lk_objects
-  | VBlockUnderLock c l => "block on " ++ obj_name c lk_objects ++ " holding " ++ obj_name l lk_objects
-  end.
-
-(* hazards of the unchanged tree (function, signatures that may be reported for it) *)
-Definition lk_exceptions : list (string * list string) :=
-  [ (* READY/RUNNING are sent while arqMapLock is held; the channel of a query that has never run is empty (QueryLife model) *)
-    ("lk_segment_query__RunQuery", ["block on *.StateChan holding query.arqMapLock"]);
-    ("lk_segment_query__initiateRunQuery", ["block on *.StateChan holding query.arqMapLock"]);
-    ("lk_segment_query__PullQueriesToRun", ["block on *.StateChan holding query.arqMapLock"]);
-    ("lk_segment_query__StartQuery", ["block on *.StateChan holding query.arqMapLock"]);
-    ("lk_segment_query__StartQueryAsCoordinator", ["block on *.StateChan holding *.rqsLock"]);
-    (* progress / response updates of ASYNC queries are sent while the query's own lock is held *)
-    ("lk_segment_query__IncProgressForRRCCmd", ["block on *.StateChan holding *.rqsLock"]);
-    ("lk_segment_query__SetPipeResp", ["block on *.StateChan holding *.rqsLock"]);
-    (* QUERY_RESTART is sent to every running query under the read lock of the table *)
-    ("lk_segment_query__RestartAllRunningQueries", ["block on *.StateChan holding query.arqMapLock"]);
-    (* the OLD query's rqsLock is held while the NEW query's rqsLock is taken: two objects, one name *)
-    ("lk_segment_query__RunningQueryState_RestartQuery", ["reacquire *.rqsLock"; "block on *.StateChan holding *.rqsLock"]);
-    (* a result channel local to the function is written while the segstore lock is held *)
-    ("lk_segment_writer__removeStaleSegments", ["block on * holding *.Lock"]);
-    ("lk_segment_writer__removeStaleSegmentsLoop", ["block on * holding *.Lock"]) ].
-
-Fixpoint allowed (name : string) (l : list (string * list string)) : list string :=
-  match l with [] => [] | (n, sigs) :: r => if String.eqb n name then sigs else allowed name r end.
-
-Definition sig_in (s : string) (l : list string) : bool := existsb (String.eqb s) l.
-
-Definition fn_ok (p : string * stm) : bool :=
-  forallb (fun v => sig_in (viol_sig v) (allowed (fst p) lk_exceptions)) (analyse lk_fuel (snd p)).
 
 (* run on the regenerated skeletons, inside Coq, on every check *)
 Lemma lk_all_checked : forallb fn_ok lk_all = true.
